@@ -46,6 +46,7 @@ KNOWN_WITNESSES = [
     ("{{ 1e400 }}", {}), ("{% assign x = 1e400 %}{{ x }}", {}), ("{{ a | compact: 'title' }}", {"a": {}}),
     ("{{ s | truncate: x }}", {"s": "abc", "x": float("inf")}), ("{{ s | slice: x }}", {"s": "abc", "x": float("inf")}),
     ("{% translate count: a %}a{% plural %}b{% endtranslate %}", {"a": {}}),
+    ("{{ a | map: () => i.x }}", {"a": [{"x": 1}]}),
     ("{{ 'inf' | ceil }}", {}), ("{{ 'nan' | ceil }}", {}), ("{{ 'inf' | floor }}", {}),
     ("{{ 'inf' | round }}", {}), ("{{ x | modulo: 0.0 }}", {"x": 5}), ("{{ 'inf' | minus: 'inf' }}", {}),
     ("{{ '50%' | t }}", {}), ("{{ '%(x)d' | t: x: 1 }}", {}),
